@@ -184,6 +184,19 @@ def nat_eval(t):
 class nat_conv(Conv):
     """Simplify all arithmetic operations."""
     def eval(self, t):
+        # Same domain as get_proof_term: numerals, Suc, plus and times (there is
+        # no proof rule for minus here, although nat_eval computes it).
+        def check(t):
+            if t.is_number():
+                return
+            elif t.is_comb('Suc', 1):
+                check(t.arg)
+            elif t.is_plus() or t.is_times():
+                check(t.arg1)
+                check(t.arg)
+            else:
+                raise ConvException("nat_conv")
+        check(t)
         return Thm(Eq(t, Nat(nat_eval(t))))
 
     def get_proof_term(self, t):
